@@ -117,6 +117,30 @@ theorem ratios_invariant_homogeneous (J : JSetup ℝ) (a b : ℝ) (ha : 0 < a) (
   intro p _
   simp only [Function.comp, jsa_scaling J a b (le_of_lt ha), Cx.toC_smul]
 
+/-- T2d. Two-source functionals (two-source HOM rate and visibilities, C10) that are homogeneous of
+degree 0 in EACH list of amplitudes take the same value whatever the power and deff of either
+source. -/
+theorem ratios_invariant_two_source (J1 J2 : JSetup ℝ) (a1 b1 a2 b2 : ℝ) (ha1 : 0 < a1) (hb1 : b1 ≠ 0)
+    (ha2 : 0 < a2) (hb2 : b2 ≠ 0) (nodes : List (ℝ × ℝ)) (scale : ℝ) (grid1 grid2 : List (ℝ × ℝ))
+    {β : Type} (F : List ℂ → List ℂ → β)
+    (hF : ∀ c1 c2 : ℝ, c1 ≠ 0 → c2 ≠ 0 → ∀ v1 v2 : List ℂ,
+      F (v1.map fun z => (c1 : ℂ) * z) (v2.map fun z => (c2 : ℂ) * z) = F v1 v2) :
+    F (grid1.map fun p => (jsa (J1.scaled a1 b1) nodes scale p.1 p.2).toC)
+        (grid2.map fun p => (jsa (J2.scaled a2 b2) nodes scale p.1 p.2).toC)
+      = F (grid1.map fun p => (jsa J1 nodes scale p.1 p.2).toC)
+          (grid2.map fun p => (jsa J2 nodes scale p.1 p.2).toC) := by
+  have hk1 : Real.sqrt a1 * |b1| ≠ 0 := ne_of_gt (mul_pos (Real.sqrt_pos.mpr ha1) (abs_pos.mpr hb1))
+  have hk2 : Real.sqrt a2 * |b2| ≠ 0 := ne_of_gt (mul_pos (Real.sqrt_pos.mpr ha2) (abs_pos.mpr hb2))
+  rw [← hF _ _ hk1 hk2 (grid1.map fun p => (jsa J1 nodes scale p.1 p.2).toC)
+    (grid2.map fun p => (jsa J2 nodes scale p.1 p.2).toC), List.map_map, List.map_map]
+  congr 1
+  · apply List.map_congr_left
+    intro p _
+    simp only [Function.comp, jsa_scaling J1 a1 b1 (le_of_lt ha1), Cx.toC_smul]
+  · apply List.map_congr_left
+    intro p _
+    simp only [Function.comp, jsa_scaling J2 a2 b2 (le_of_lt ha2), Cx.toC_smul]
+
 /-- T3a. The pump envelope has amplitude 1 at the pump centre frequency. -/
 theorem envelope_centre (ω0 fwhm : ℝ) : pumpSpectralAmplitude ω0 ω0 fwhm = 1 :=
   envelope_centre' ω0 fwhm
@@ -144,6 +168,18 @@ theorem jsaRaw_factor (J : JSetup ℝ) (nodes : List (ℝ × ℝ)) (scale ωs ω
       = Cx.smul (pumpSpectralAmplitude (ωs + ωi) J.omegaP J.bandwidth)
           (pmCoincQ J.toSetup nodes scale ωs ωi) := by
   unfold jsaRaw
+  simp [hv, not_lt.mpr ht]
+
+/-- T4b. The singles raw intensity has the SAME support logic as the coincidence amplitude (the
+envelope AMPLITUDE is compared with the threshold) and is the squared envelope times the singles
+phase-matching function inside it. -/
+theorem jsiSinglesRaw_factor (J : JSetup ℝ) (sr : Setup ℝ → ℝ → ℝ → ℝ) (ωs ωi : ℝ)
+    (hv : invalidFrequencies ωs ωi J.omegaP = false)
+    (ht : J.threshold ≤ pumpSpectralAmplitude (ωs + ωi) J.omegaP J.bandwidth) :
+    jsiSinglesRaw sr J ωs ωi
+      = pumpSpectralAmplitude (ωs + ωi) J.omegaP J.bandwidth
+          * pumpSpectralAmplitude (ωs + ωi) J.omegaP J.bandwidth * sr J.toSetup ωs ωi := by
+  unfold jsiSinglesRaw
   simp [hv, not_lt.mpr ht]
 
 /-- T5. Exact zeros off-support: below the threshold, for a non-positive frequency, above the pump
